@@ -2,7 +2,7 @@
 From Coq Require Import List NArith Arith Lia Bool.
 From Verif Require Import Abs.Quorum Abs.RaftBase Abs.CfgQuorum Abs.CfgBase Abs.CfgRaft
   Abs.CfgInvDefs Abs.CfgInvT Abs.CfgInvFrame Abs.CfgInvStepA Abs.CfgInvStepB Abs.CfgInvStepC
-  Abs.CfgInvStepD Abs.CfgInvStepE Abs.CfgInvStepF.
+  Abs.CfgInvStepD Abs.CfgInvStepE Abs.CfgInvStepF Abs.CfgInvStepG.
 Import ListNotations.
 Open Scope N_scope.
 
@@ -10,9 +10,9 @@ Section All.
 Variable V0 : list N.
 Hypothesis V0_nodup : NoDup V0.
 
-Lemma inv_step s s' : inv V0 s -> step V0 s s' -> inv V0 s'.
+Lemma inv_step s s' : inv V0 s -> dinv s -> step V0 s s' -> inv V0 s'.
 Proof.
-  intros I Hs. unfold step in Hs. inversion Hs; subst.
+  intros I D Hs. unfold step in Hs. inversion Hs; subst.
   - apply inv_start; assumption.
   - eapply inv_grant; eassumption.
   - apply inv_stepdown; assumption.
@@ -24,14 +24,38 @@ Proof.
   - apply inv_recv; assumption.
   - apply inv_ack; assumption.
   - eapply inv_commit; eassumption.
+  - apply inv_flush; assumption.
+  - apply inv_crash; assumption.
+Qed.
+
+Lemma dinv_step s s' : inv V0 s -> dinv s -> step V0 s s' -> dinv s'.
+Proof.
+  intros I D Hs. pose proof (inv_step s s' I D Hs) as I'.
+  unfold step in Hs. inversion Hs; subst.
+  - apply dinv_start; assumption.
+  - apply dinv_grant; assumption.
+  - apply dinv_stepdown; assumption.
+  - apply dinv_count; assumption.
+  - apply (dinv_win V0 V0_nodup); assumption.
+  - apply (dinv_append V0); assumption.
+  - apply (dinv_append V0); assumption.
+  - apply dinv_send; assumption.
+  - apply (dinv_recv V0); try assumption. exact (proj2 I').
+  - apply dinv_ack; assumption.
+  - apply dinv_commit; [assumption | lia].
+  - apply dinv_flush; assumption.
+  - apply dinv_crash; assumption.
+Qed.
+
+Theorem reachable_inv2 s : Reachable V0 s -> inv V0 s /\ dinv s.
+Proof.
+  intro H. unfold Reachable in H. induction H as [|s s' _ [IH ID] Hs].
+  - split; [apply inv_init | apply dinv_init].
+  - split; [exact (inv_step s s' IH ID Hs) | exact (dinv_step s s' IH ID Hs)].
 Qed.
 
 Theorem reachable_inv s : Reachable V0 s -> inv V0 s.
-Proof.
-  intro H. unfold Reachable in H. induction H as [|s s' _ IH Hs].
-  - apply inv_init.
-  - exact (inv_step s s' IH Hs).
-Qed.
+Proof. intro H. exact (proj1 (reachable_inv2 s H)). Qed.
 
 Theorem election_safety s t n L n' L' :
   Reachable V0 s -> In (t, n, L) (elected s) -> In (t, n', L') (elected s) -> n = n'.
@@ -99,6 +123,40 @@ Proof.
   destruct (nth_error (log (st s n)) (i - 1)) as [e|] eqn:E.
   - exists e. split; [reflexivity|]. rewrite He2, <- Heq, <- He1. reflexivity.
   - apply nth_error_None in E. lia.
+Qed.
+
+(* the commit index never exceeds the durable prefix *)
+Theorem commit_le_flushed s n :
+  Reachable V0 s -> (commit (st s n) <= flushed (st s n) <= length (log (st s n)))%nat.
+Proof.
+  intro R. destruct (reachable_inv2 s R) as [_ D].
+  split; [apply (d_cf s D) | apply (d_fl s D)].
+Qed.
+
+(* reflexive-transitive closure of the step relation (crashes included) *)
+Inductive steps : state -> state -> Prop :=
+| steps_refl s : steps s s
+| steps_cons s s1 s' : step V0 s s1 -> steps s1 s' -> steps s s'.
+
+Lemma steps_reachable s s' : Reachable V0 s -> steps s s' -> Reachable V0 s'.
+Proof.
+  intros R H. induction H as [|s s1 s' Hs _ IH]; [exact R|].
+  apply IH. exact (GR_step V0 true s s1 R Hs).
+Qed.
+
+Lemma committed_step s s' x : step V0 s s' -> In x (committed s) -> In x (committed s').
+Proof.
+  intros Hs Hx. unfold step in Hs. inversion Hs; subst; simpl; try exact Hx.
+  destruct (nth_error (log (st s l)) (k - 1)); [right|]; exact Hx.
+Qed.
+
+Theorem committed_survives s s' t i e :
+  Reachable V0 s -> steps s s' -> In (t, i, e) (committed s) ->
+  Reachable V0 s' /\ In (t, i, e) (committed s').
+Proof.
+  intros R H Hc. split; [exact (steps_reachable s s' R H)|].
+  clear R. induction H as [|s s1 s' Hs _ IH]; [exact Hc|].
+  apply IH. exact (committed_step s s1 _ Hs Hc).
 Qed.
 
 End All.
